@@ -173,6 +173,9 @@ pub fn run_case(c: &Case) -> String {
             let a: Vec<u64> = (0..=24u64).map(|x| su(rb.service_needed(d(x)))).collect();
             let b: Vec<u64> = (0..=24u64).map(|x| su(rb.least_wcet_in_interval(d(x)))).collect();
             let n: Vec<u64> = (0..=24u64).map(|x| su(rb.service_needed_by_n_jobs(d(x), 2))).collect();
+            // job limits meaning "no limit"
+            let nl: Vec<u64> = [1usize << 40, 1 << 60, usize::MAX].iter().map(|k| su(rb.service_needed_by_n_jobs(d(17), *k))).collect();
+            let a = (a, nl);
             let st: Vec<u64> = rb.steps_iter().take(10).map(du).collect();
             format!("{:?}/{:?}/{:?}/{:?}", a, b, n, st)
         }),
@@ -486,6 +489,14 @@ pub fn shard_main(args: &[String]) -> ! {
         }
         cur.store(idx as u64, Ordering::SeqCst);
         tick.fetch_add(1, Ordering::SeqCst);
+        {
+            // begin marker, flushed: if the process is killed inside this case (allocation
+            // failure, stack overflow: aborts that catch_unwind cannot intercept) the driver knows
+            // which case it was
+            let mut l = out.lock().unwrap();
+            let _ = writeln!(l, "B {}", idx);
+            let _ = l.flush();
+        }
         let r = catch(|| run_case(&cases[idx]));
         cur.store(u64::MAX, Ordering::SeqCst);
         let mut l = out.lock().unwrap();
@@ -544,14 +555,19 @@ fn run_shard(
         let txt = String::from_utf8_lossy(&out.stdout);
         let mut done = false;
         let mut hang_at = None;
+        let mut begun: Option<usize> = None;
         for l in txt.lines() {
-            if let Some(r) = l.strip_prefix("O ") {
+            if let Some(r) = l.strip_prefix("B ") {
+                begun = r.trim().parse().ok();
+            } else if let Some(r) = l.strip_prefix("O ") {
                 let (i, h) = r.split_once(' ').unwrap();
                 res.outs.insert(i.parse().unwrap(), u64::from_str_radix(h, 16).unwrap());
+                begun = None;
             } else if let Some(r) = l.strip_prefix("P ") {
                 let (i, rest) = r.split_once(' ').unwrap();
                 let (k, m) = rest.split_once(" :: ").unwrap_or((rest, ""));
                 res.panics.push((i.parse().unwrap(), k.to_string(), m.to_string()));
+                begun = None;
             } else if let Some(r) = l.strip_prefix("H ") {
                 let (i, k) = r.split_once(' ').unwrap();
                 let idx: usize = i.parse().unwrap();
@@ -569,6 +585,15 @@ fn run_shard(
         }
         if done {
             break;
+        }
+        if hang_at.is_none() {
+            if let Some(i) = begun {
+                // the process died inside case i: an abort (not a panic) of the library
+                let cases = stream(name, quick);
+                res.panics.push((i, key_hint(&cases[i]), format!("the process was terminated inside this case ({:?}): abort / allocation failure / stack overflow", out.status)));
+                from = i + 1;
+                continue;
+            }
         }
         match hang_at {
             Some(i) => from = i + 1,
